@@ -11,7 +11,6 @@ import (
 	"strings"
 
 	"cuelabs.dev/go/oci/ociregistry"
-	"cuelabs.dev/go/oci/ociregistry/ocimem"
 	"cuelabs.dev/go/oci/ociregistry/ociref"
 	"cuelabs.dev/go/oci/ociregistry/ociunify"
 )
@@ -96,8 +95,8 @@ func (m ctxMember) GetTag(ctx context.Context, repo, tag string) (ociregistry.Bl
 
 func newC15State(pol int, imm bool, c Case) *c15State {
 	s := &c15State{pol: pol}
-	s.m0 = ocimem.NewWithConfig(&ocimem.Config{ImmutableTags: imm})
-	s.m1 = ocimem.NewWithConfig(&ocimem.Config{ImmutableTags: imm})
+	s.m0 = newMem(imm)
+	s.m1 = newMem(imm)
 	s.i0, s.i1 = newRegInterp(s.m0), newRegInterp(s.m1)
 	s.iu = newRegInterp(ociunify.New(ctxMember{s.m0}, ctxMember{s.m1}, &ociunify.Options{ReadPolicy: c15Policy(pol)}))
 	s.ialt = newRegInterp(ociunify.New(ctxMember{s.m0}, ctxMember{s.m1}, &ociunify.Options{ReadPolicy: c15Policy(1 - pol)}))
